@@ -6,10 +6,15 @@ CONSTANTS
   Fams = {"G", "Gs", "GP", "GPs", "H", "Hs", "W", "GEM", "SP"}
   Lists = {"default", "full", "altenc"}
   DecSizeStored = FALSE
+  LineCap = "none"
+  LongOn = TRUE
+  HistOn = TRUE
   Known = {}
 INVARIANT Loop
 INVARIANT BodyExact
 INVARIANT LenTruthful
 INVARIANT HeadIsGetHeaders
 INVARIANT TypeTruthful
+INVARIANT Delivered
+INVARIANT HistoryFree
 CHECK_DEADLOCK FALSE
